@@ -22,40 +22,40 @@ def _c(technique, text, note, ref, category='exploration'):
 
 
 _TT = 'runtime monitoring: truth-table reference model'
-_NOTE = 'Trusts vf/oracle.py (truth tables as Python ints), CPython, and that BDD._succ / the level map are the representation being judged; nothing is claimed beyond the executions listed in the evidence file.'
+_NOTE = 'Trusts vf/oracle.py (truth tables as Python ints; beyond 8 variables vf/big.py: pointwise evaluation of own definitions on ~60 sampled assignments per reference), CPython, and that BDD._succ / the level map are the representation being judged; nothing is claimed beyond the executions listed in the evidence file.'
 CHECKS.update({
     'C02': _c(_TT + ' + structural monitors M1-M3 at every quiescent point of generated histories; route-equality oracle',
-              'All functions of 3 variables by 10 construction routes under all orders and both managers (same integer required), all/sampled functions of 4 variables with a bijection table<->reference check, and histories (ops, collections, swaps, sifting, declare/undeclare, copy, load) with own reducedness/ordering/uniqueness and pairwise-distinct-denotation monitors after every step.',
+              'All functions of 3 variables by 10 construction routes under all orders and both managers (same integer required), all/sampled functions of 4 variables with a bijection table<->reference check, and histories (ops, collections, swaps, sifting, declare/undeclare, copy, load) with own reducedness/ordering/uniqueness and pairwise-distinct-denotation monitors after every step. Plus histories over 12-70 variables and thousands of nodes judged pointwise on sampled assignments (vf/big.py).',
               _NOTE, 'DESIGN.md section 3 C02'),
     'C03': _c(_TT + ' over exhaustive function x subset sweeps',
-              'Every function of 3 (and all/sampled of 4) variables x every subset x both quantifiers x orders through every entry point (names, lists, levels, apply forms, autoref, Function methods), fresh and long-lived managers; plus same-reference check when no quantified variable is in the support.',
+              'Every function of 3 (and all/sampled of 4) variables x every subset x both quantifiers x orders through every entry point (names, lists, levels, apply forms, autoref, Function methods), fresh and long-lived managers; plus same-reference check when no quantified variable is in the support. Plus histories over 12-70 variables and thousands of nodes judged pointwise on sampled assignments (vf/big.py), and operations on one function of ~130000 nodes (node numbers beyond 2**16).',
               _NOTE, 'DESIGN.md section 3 C03'),
     'C04': _c(_TT + ' (cofactor / simultaneous substitution) over exhaustive sweeps',
-              'n=3: all functions x all 27 partial assignments x all 64 renamings x every single-variable composition with every function; sampled vector compositions; n=4 all/sampled; operand table and counts re-checked.',
+              'n=3: all functions x all 27 partial assignments x all 64 renamings x every single-variable composition with every function; sampled vector compositions; n=4 all/sampled; operand table and counts re-checked. Plus histories over 12-70 variables and thousands of nodes judged pointwise on sampled assignments (vf/big.py), and operations on one function of ~130000 nodes (node numbers beyond 2**16).',
               _NOTE, 'DESIGN.md section 3 C04'),
     'C05': _c('runtime monitoring: independent reader of the documented grammar as oracle for add_expr over generated formulas',
-              'Complete operator-pair/triple spelling matrices, binder templates, constants, comments, @n, random formulas to depth 5 alternating between two managers (shared translator) with refused formulas and collections in between, each compared with an independent precedence-climbing evaluator and with its fully parenthesised form; to_expr round trip and independent reading of the printed text for all functions of <=3 (4: all/sampled) variables.',
+              'Complete operator-pair/triple spelling matrices, binder templates, constants, comments, @n, random formulas to depth 5 alternating between two managers (shared translator) with refused formulas and collections in between, each compared with an independent precedence-climbing evaluator and with its fully parenthesised form; to_expr round trip and independent reading of the printed text for all functions of <=3 (4: all/sampled) variables. Plus histories over 12-70 variables and thousands of nodes judged pointwise on sampled assignments (vf/big.py).',
               'Trusts vf/formula.py as a faithful reading of doc.md; ' + _NOTE, 'DESIGN.md section 3 C05'),
     'C10': _c(_TT + ' (support, model count, model set) over exhaustive sweeps',
-              'Every function of <=3 (4: all/sampled) variables with and without a spare declared variable: support/is_essential, count for n up to support+3 and refusal below, pick_iter for every care set (disjoint cubes inside the models covering them), pick; dd.bdd, dd.autoref, Function methods; the same queries on every held reference after every step of random histories (collections, re-use of node numbers, reordering, declaration and removal of variables).',
+              'Every function of <=3 (4: all/sampled) variables with and without a spare declared variable: support/is_essential, count for n up to support+3 and refusal below, pick_iter for every care set (disjoint cubes inside the models covering them), pick; dd.bdd, dd.autoref, Function methods; the same queries on every held reference after every step of random histories (collections, re-use of node numbers, reordering, declaration and removal of variables). Plus histories over 12-70 variables and thousands of nodes judged pointwise on sampled assignments (vf/big.py), and operations on one function of ~130000 nodes (node numbers beyond 2**16).',
               _NOTE, 'DESIGN.md section 3 C10'),
     'C06': _c('runtime monitoring: reference-count ledger (count == in-edges + harness holds) and exact-collection oracle at every quiescent point of exhaustive short and long random histories; temporal cache monitor',
-              'Every sequence up to length 4 (quick) / 5-6 (thorough) over an 11-step alphabet of create/operate/hold/release/collect/rooted-collect/swap/sift on 3 variables for several function pairs, plus random histories of 400-5000 steps over 3-6 variables, a third with dynamic reordering enabled at a tiny threshold; after every step counts, reachability, reducedness, cache entries and held references are re-derived from the raw tables.',
+              'Every sequence up to length 4 (quick) / 5-6 (thorough) over an 11-step alphabet of create/operate/hold/release/collect/rooted-collect/swap/sift on 3 variables for several function pairs, plus random histories of 400-5000 steps over 3-6 variables, a third with dynamic reordering enabled at a tiny threshold; after every step counts, reachability, reducedness, cache entries and held references are re-derived from the raw tables. Plus histories over 12-70 variables and thousands of nodes judged pointwise on sampled assignments (vf/big.py), and operations on one function of ~130000 nodes (node numbers beyond 2**16).',
               'The harness is the only holder of external references; ' + _NOTE, 'DESIGN.md section 3 C06'),
     'C07': _c('runtime monitoring: before/after snapshots of held references (number, truth table, external count) around every reordering + structural monitors + swap level-index post-condition',
-              'n=3: every set of one or two of the 256 functions held x both swaps x target permutations x starting orders; n=1..5 sampled held sets with garbage: every adjacent swap, every/sampled target permutation, disjoint pairings, repeated sifting under 8 (quick) / 64 (thorough) hash seeds; dd.bdd and dd.autoref.',
+              'n=3: every set of one or two of the 256 functions held x both swaps x target permutations x starting orders; n=1..5 sampled held sets with garbage: every adjacent swap, every/sampled target permutation, disjoint pairings, repeated sifting under 8 (quick) / 64 (thorough) hash seeds; dd.bdd and dd.autoref. Plus histories over 12-70 variables and thousands of nodes judged pointwise on sampled assignments (vf/big.py), and operations on one function of ~130000 nodes (node numbers beyond 2**16).',
               _NOTE, 'DESIGN.md section 3 C07'),
     'C08': _c('runtime monitoring: registry of live Function objects (class-attribute wrappers on __init__/__del__) as ledger; count == in-edges + live handles after every step; explicit shutdown check',
-              'Random dd.autoref histories (constructions, all operators, traversals creating child handles, handle copies, copies between managers, pickle/JSON round trips, drops in random order, collections, reorderings), half with dynamic reordering at a lowered threshold; at the end all handles dropped: registry empty, only the terminal left, manager __del__ passes.',
+              'Random dd.autoref histories (constructions, all operators, traversals creating child handles, handle copies, copies between managers, pickle/JSON round trips, drops in random order, collections, reorderings), half with dynamic reordering at a lowered threshold; at the end all handles dropped: registry empty, only the terminal left, manager __del__ passes. Plus histories over 12-70 variables and thousands of nodes judged pointwise on sampled assignments (vf/big.py), and operations on one function of ~130000 nodes (node numbers beyond 2**16).',
               'Cyclic collector is off in shard processes so finalisers never run inside a ledger comparison; ' + _NOTE, 'DESIGN.md section 3 C08'),
     'C09': _c('runtime monitoring with fault injection: failpoint at dd.bdd._request_reordering fires the reordering signal at the k-th request, k enumerated 1..K+1 per operation on freshly rebuilt managers; truth-table oracle + M1-M7',
-              'For 31 operation kinds (apply symbols, Function operators, ite, quantify, let x3, cube, var, add_expr, copy x3, load pickle/JSON, image, preimage, autoref find_or_add) x scenarios x every trigger position, for dd.autoref and dd.bdd; plus natural triggering at lowered and default thresholds with refused calls (C17 catalogue) in between: reordering must stay enabled.',
+              'For 31 operation kinds (apply symbols, Function operators, ite, quantify, let x3, cube, var, add_expr, copy x3, load pickle/JSON, image, preimage, autoref find_or_add) x scenarios x every trigger position, for dd.autoref and dd.bdd; plus natural triggering at lowered and default thresholds with refused calls (C17 catalogue) in between: reordering must stay enabled. Plus histories over 12-70 variables and thousands of nodes judged pointwise on sampled assignments (vf/big.py).',
               'The signal originates only in _request_reordering (module global looked up at call time); ' + _NOTE, 'DESIGN.md section 3 C09', 'fault_enumeration'),
     'C11': _c(_TT + ' read by variable name in the target manager; source snapshot comparison; target ledger',
-              'All 256 functions of 3 variables for every pair of source/target orders through six entry points (BDD.copy, copy_bdd, autoref, _copy.copy_bdd, copy_bdds_from), sampled 4-5 variable functions into targets with extra variables, pre-existing nodes, warm cache, dynamic reordering enabled and due; roots of copy_bdds_from as list/tuple/generator/iterator/dict view; copy_vars.',
+              'All 256 functions of 3 variables for every pair of source/target orders through six entry points (BDD.copy, copy_bdd, autoref, _copy.copy_bdd, copy_bdds_from), sampled 4-5 variable functions into targets with extra variables, pre-existing nodes, warm cache, dynamic reordering enabled and due; roots of copy_bdds_from as list/tuple/generator/iterator/dict view; copy_vars. Plus histories over 12-70 variables and thousands of nodes judged pointwise on sampled assignments (vf/big.py), and operations on one function of ~130000 nodes (node numbers beyond 2**16).',
               _NOTE, 'DESIGN.md section 3 C11'),
     'C12': _c(_TT + ' on loaded roots + outcome-class prediction from the documented loader rules; target ledger and structure monitors',
-              'Sampled scenarios over format (pickle dd.bdd/dd.autoref, JSON, whole manager, roots=None) x target state (fresh, same, same order, other order, extra variables, subset) x levels/load_order x list/dict roots x reordered sources; refusals are legal where predicted.',
+              'Sampled scenarios over format (pickle dd.bdd/dd.autoref, JSON, whole manager, roots=None) x target state (fresh, same, same order, other order, extra variables, subset) x levels/load_order x list/dict roots x reordered sources; refusals are legal where predicted. Plus histories over 12-70 variables and thousands of nodes judged pointwise on sampled assignments (vf/big.py), and operations on one function of ~130000 nodes (node numbers beyond 2**16).',
               _NOTE, 'DESIGN.md section 3 C12'),
     'C13': _c(_TT + ' (relational product) inside the documented input class',
               'One pair + free variable exhaustive (256 relations x sets x allowed qvar subsets x both quantifiers x orders), 2-3 pairs sampled, names or levels, qvars as every kind of iterable, dd.bdd functions and dd.autoref wrappers; non-adjacent orders for image.',
@@ -77,7 +77,7 @@ CHECKS.update({
               'Trusted base: the stand-ins under /verif/fake/ (~900 lines of C on 64-bit truth tables), Cython 3.0.0 and gcc; a toolchain artefact (tracebacks leaked by Cython 3.0.0 on CPython 3.12) is neutralised by clearing dead frames, see DESIGN.md section 5. Three of the four wrappers are covered; dd/cudd_zdd.pyx is not.',
               'DESIGN.md section 5'),
     'C18': _c(_TT + ' applied to re-evaluated traversals and parsed graph exports',
-              'Every function of <=3 (4: all/sampled) variables and sampled root sets: traversal via Function/succ, descendants/sizes vs own reachability, to_nx graph and DOT text re-read and evaluated; the same views of held references after every step of random histories (node numbers re-used, nodes relabelled by reordering).',
+              'Every function of <=3 (4: all/sampled) variables and sampled root sets: traversal via Function/succ, descendants/sizes vs own reachability, to_nx graph and DOT text re-read and evaluated; the same views of held references after every step of random histories (node numbers re-used, nodes relabelled by reordering). Plus histories over 12-70 variables and thousands of nodes judged pointwise on sampled assignments (vf/big.py), and operations on one function of ~130000 nodes (node numbers beyond 2**16).',
               _NOTE + ' DOT legend as documented in doc.md.', 'DESIGN.md section 3 C18'),
 })
 
